@@ -300,7 +300,7 @@ pub fn run(r: &Run) {
     r.set_rule(RULE);
     r.assume("the stored path is what the decoder / API produce (attributes in type order, ORIGIN and AS_PATH present); locally originated and kernel routes carry no MED, ORIGINATOR_ID or CLUSTER_LIST; export policy is absent (its actions are C14's subject)");
     r.assume("inbound ORIGINATOR_ID / CLUSTER_LIST loop checks live in PeerSession::rx_update and are not reached here; is_as_loop is checked on its own");
-    r.prop("export-matrix", r.tier.pick(80_000, 3_000_000), arb_case, check);
+    r.prop("export-matrix", r.tier.pick(300_000, 6_000_000), arb_case, check);
     r.prop("as-loop", r.tier.pick(20_000, 500_000), || (arb_wire_attrs(), prop_oneof![Just(65000u32), Just(65002u32), Just(70000u32), Just(23456u32)], prop_oneof![Just(0u32), Just(65002u32), Just(65000u32), Just(70001u32)]).prop_map(|(attrs, local_asn, confed)| LoopCase { attrs, local_asn, confed }), check_loop);
 }
 
